@@ -18,7 +18,7 @@ TECHNIQUE = "Hypothesis property-based differential testing (unique=True vs uniq
 LEVEL_TEXT = ("Generated degeneracy patterns; each method run twice and compared at every step (c_T (N+1) eps + 1e-7, c_T=100 "
               "TEMPO/mean-field, 1000 PT-TEMPO). Exploration at d<=5 on conditioned inputs.")
 LEVEL_NOTE = "Differential oracle; the unique=False route is anchored to independent references by C01/C03."
-ASSUMPTIONS = ["TEMPO inputs are conditioned (D <= 5) and size-coupled as in DESIGN section 4"]
+ASSUMPTIONS = ["TEMPO inputs are conditioned (D <= 3.5) and size-coupled as in DESIGN section 4"]
 
 POOLS = [[-1.0, 0.0, 1.0], [-1.0, -0.5, 0.0, 0.5, 1.0], [0.0, 1.0, 2.0, 3.0], [0.5, 1.0, 1.5, 2.0], [0.0, 1.0], [-2.0, 1.0, 0.5]]
 
